@@ -723,7 +723,7 @@ Definition sweep_bucket (UK : list bytes) (b : bytes) (bs : bstate) : bytes :=
 Definition sweep (UK UB : list bytes) (s : istate) : list bytes :=
   flat_map (fun b => match s b with Some bs => [sweep_bucket UK b bs] | None => [] end) UB.
 
-Definition run_line (l : bytes) : bytes :=
+Definition run_line_single (l : bytes) : bytes :=
   match tokens l with
   | bt :: kt :: ops =>
       do UB <- untok_list bt;
